@@ -147,8 +147,8 @@ def emit_parallel(rep, bd, name, maxcalls, ops, pool, nproc, stats):
     def one(i):
         e = env(maxcalls, ops, pool, emit="part", every=nproc, offset=i)
         return common.run_tlc("MC_Registry", "MC_Registry.cfg", os.path.join(bd, "part%d" % i), env=e, workers=1, coverage=False,
-                              timeout=6000, tag="part%d" % i)
-    with cf.ThreadPoolExecutor(max_workers=nproc) as ex:
+                              timeout=6000, tag="part%d" % i, heap="2g")
+    with cf.ThreadPoolExecutor(max_workers=min(nproc, 8)) as ex:
         results = list(ex.map(one, range(nproc)))
     total = 0
     for i, r in enumerate(results):
